@@ -46,6 +46,16 @@ const (
 // ignored by the latch, and State() reported NotSelected for good after Close had returned.
 const stateClosedBit uint32 = 1 << 31
 
+// Bits 8..30 of the state word carry a NOT-SELECTED dwell number while the state is NotSelected (and
+// are zero otherwise): every entry into NotSelected publishes a fresh number, so two dwells never
+// share a word and a compare-and-swap prepared against one of them cannot succeed against a later one
+// (the evT7Timeout store — see step). State() masks them off.
+const (
+	stateValueMask  uint32 = 0xFF
+	stateDwellShift        = 8
+	stateDwellMask  uint32 = 0x7FFFFF
+)
+
 // stateChange is one logical E37 transition, reported to the notifier as (prev -> next).
 type stateChange struct {
 	prev ConnState
@@ -74,6 +84,8 @@ type supervisor struct {
 	notify        chan stateChange           // SOLE sender is run(); NON-BLOCKING drop-OLDEST coalescing
 	droppedNotify atomic.Uint64              // count of coalesced/dropped notifications; surfaced via a rate-limited Warn (M4)
 	lostQueued    atomic.Int32               // CommitSelectLost commits whose evSelectLost step() has not processed yet (stale-Select guard)
+	dwell         atomic.Uint32              // NOT-SELECTED dwells entered so far (see stateDwellShift)
+	t7Word        atomic.Uint32              // the state word the latest evT7Timeout was injected against
 	react         func(prev, next ConnState) // for a transition INTO NotConnected: farewell decision + teardown init
 	closeEpoch    atomic.Pointer[epoch]      // set by requestClose(e) BEFORE evClose; the epoch to ensure-tear-down
 	stopCh        chan struct{}              // closed by stop() (from Close, AFTER e.wait()) -> run() exits
@@ -187,7 +199,12 @@ func transition(cur ConnState, ev fsmEvent) (ConnState, bool) {
 
 // State returns the current logical E37 state via a lock-free atomic read.
 func (s *supervisor) State() ConnState {
-	return ConnState(s.state.Load() &^ stateClosedBit)
+	return ConnState(s.state.Load() & stateValueMask)
+}
+
+// notSelectedWord returns the state word for a NEW not-selected dwell.
+func (s *supervisor) notSelectedWord() uint32 {
+	return uint32(NotSelectedState) | (s.dwell.Add(1)&stateDwellMask)<<stateDwellShift
 }
 
 // CommitConnected performs the synchronous TCP-up commit (symmetric with CommitSelected / §7.D):
@@ -200,7 +217,7 @@ func (s *supervisor) State() ConnState {
 // when not NotConnected is a no-op returning false (TCPUp is driven once per generation, and the
 // only transition out of NotConnected is evTCPUp itself, so the CAS always succeeds in practice).
 func (s *supervisor) CommitConnected() (committed bool) {
-	if s.state.CompareAndSwap(uint32(NotConnectedState), uint32(NotSelectedState)) {
+	if s.state.CompareAndSwap(uint32(NotConnectedState), s.notSelectedWord()) {
 		s.inject(evTCPUp)
 
 		return true
@@ -218,13 +235,17 @@ func (s *supervisor) CommitConnected() (committed bool) {
 // a later CommitSelectLost has superseded it (see step). It returns whether THIS call performed the
 // commit; a call when already Selected is a no-op returning false.
 func (s *supervisor) CommitSelected() (committed bool) {
-	if s.state.CompareAndSwap(uint32(NotSelectedState), uint32(SelectedState)) {
-		s.inject(evSelectCommit)
+	for {
+		w := s.state.Load() // NotSelected carries its dwell number: swap from the word as it is
+		if w&stateClosedBit != 0 || ConnState(w&stateValueMask) != NotSelectedState {
+			return false
+		}
+		if s.state.CompareAndSwap(w, uint32(SelectedState)) {
+			s.inject(evSelectCommit)
 
-		return true
+			return true
+		}
 	}
-
-	return false
 }
 
 // CommitSelectLost performs the synchronous Selected -> NotSelected commit (symmetric with
@@ -244,7 +265,7 @@ func (s *supervisor) CommitSelected() (committed bool) {
 func (s *supervisor) CommitSelectLost() (committed bool) {
 	s.lostQueued.Add(1)
 
-	if s.state.CompareAndSwap(uint32(SelectedState), uint32(NotSelectedState)) {
+	if s.state.CompareAndSwap(uint32(SelectedState), s.notSelectedWord()) {
 		s.inject(evSelectLost)
 
 		return true
@@ -299,7 +320,8 @@ func (s *supervisor) step(ev fsmEvent) {
 		return
 	}
 
-	cur := ConnState(s.state.Load())
+	curWord := s.state.Load()
+	cur := ConnState(curWord & stateValueMask)
 
 	// Test seam (T24b): lets a test deterministically interpose a concurrent CommitSelected between
 	// the state.Load() above and the evT7Timeout CAS below, exercising the tie the CAS closes. nil in
@@ -353,9 +375,17 @@ func (s *supervisor) step(ev fsmEvent) {
 			// entering-Selected reaction. This makes "never torn down by a stale T7" hold BY
 			// CONSTRUCTION, with no TOCTOU.
 			if ev == evT7Timeout {
-				if !s.state.CompareAndSwap(uint32(cur), uint32(next)) {
+				// NotSelected and NotSelected-again are different words (each dwell has its own number):
+				// the expiry is honoured only against the very word it was injected against, in ONE
+				// compare-and-swap. A Select commit followed by a Deselect commit while this event sat in
+				// the queue (or while this step was between its load and this store) leaves state ==
+				// NotSelected, yet the T7 that produced the event was armed before the session was
+				// selected; the new dwell has its own T7.
+				if curWord != s.t7Word.Load() || !s.state.CompareAndSwap(curWord, uint32(next)) {
 					return // concurrent commit changed state; the T7 disconnect is stale — abandon it
 				}
+			} else if next == NotSelectedState {
+				s.state.Store(s.notSelectedWord())
 			} else {
 				s.state.Store(uint32(next))
 			}
@@ -438,6 +468,10 @@ func (s *supervisor) resolveCloseTimeout() time.Duration {
 // run() has returned (runDone closed), so a re-Close after stop() cannot deadlock on the
 // unread events channel. Drop coalescing applies only to notify, never to events (spec §5.3).
 func (s *supervisor) inject(ev fsmEvent) {
+	if ev == evT7Timeout {
+		s.t7Word.Store(s.state.Load()) // the expiry is about THIS dwell (see step)
+	}
+
 	select {
 	case s.events <- ev:
 	case <-s.runDone:
